@@ -1,16 +1,16 @@
 PROP = dict(
-  units=['rlist', 'tbl', 'hpscan', 'ebr', 'qsbr', 'lfrc', 'stampit_guard', 'hp:gops_k1,gops_k2'],
+  units=['rlist', 'tbl', 'hpscan', 'ebr', 'qsbr', 'lfrc', 'stampit_guard', 'stampq:global,global_int', 'hp:gops_k1,gops_k2'],
   level='other',
   strict_obligations=True,
   obligations=['rlist.*', 'tbl.retired.conserve', 'tbl.abandon.commit', 'hpscan.conserve', 'hescan.conserve', 'hpscan.dtor.hands_over_all', 'hpscan.retire.once_then_trigger',
                'ebr.conserve', 'ebr.dtor.hands_over_all', 'ebr.dtor.releases_record', 'ebr.reclaim.retires_once', 'ebr.orphans.slot', 'ebr.retire.slot', 'ebr.free.exact',
                'qsbr.conserve', 'qsbr.dtor.hands_over_all', 'qsbr.dtor.releases_record', 'qsbr.reclaim.retires_once', 'qsbr.retire.current_epoch', 'qsbr.orphans.target_epoch', 'qsbr.free.on_reentry',
                'lfrc.freelist.conserve', 'lfrc.reclaim.once', 'lfrc.reset.destroy_iff_claimed', 'lfrc.freelist.push_links', 'lfrc.freelist.pop_owns', 'lfrc.decrement.claims_once',
-               'stamp.conserve', 'stamp.dtor.hands_over_all', 'stamp.global.restart_progress', 'stamp.free.below_tail',
+               'stamp.conserve', 'stamp.dtor.hands_over_all', 'stamp.global.restart_progress', 'stamp.free.below_tail', 'stampq.global.conserve',
                'hp.reclaim.retires_and_resets'],
   explanation='Conservation contracts on every function that moves retired nodes (ghost per node: deleted counter, holder): multiset(in) = multiset(out lists) + deleted now, every node deleted at most once, '
               'thread_data destructors hand every pending node over exactly once. "Eventually destroyed" is liveness and is not decided; what is decided is that nothing is lost or duplicated on the way.',
   assumptions=['liveness ("eventually") is not decided', 'helper lists are contract stubs in these units (conservation contract) and under contract in units rlist/tbl/hpscan when present',
-               'stamp_it thread_order_queue trusted', 'shapes: lists <= 3 nodes (thorough 5), chunks <= 3'],
+               'stamp_it thread_order_queue: add_to/steal_global_retired_nodes under contract (stampq.global.conserve); the ordering operations as in C01', 'shapes: lists <= 3 nodes (thorough 5), chunks <= 3'],
   trusted_base=[],
 )
